@@ -181,4 +181,42 @@ def Hs.run (c : Conf) (target : Bytes) : Hs → List HsEvent → Hs × List Acti
     let t := Hs.run c target r.1 es
     (t.1, r.2 ++ t.2)
 
+/-! ## Specification side: a request as a list of header lines -/
+
+/-- which of the four headers of interest a field name selects (`websocket_upgrade_on_header_field`) -/
+def hdrKind (n : Bytes) : HField :=
+  if headerNameIs hdrKey n then .key
+  else if headerNameIs hdrVersion n then .version
+  else if headerNameIs hdrProtocol n then .protocol
+  else if headerNameIs hdrExtensions n then .extensions
+  else .unknown
+
+/-- a header the upgrade logic accepts: a key of 24 bytes, version "13", anything else -/
+def hdrOk (x : Bytes × Bytes) : Prop :=
+  match hdrKind x.1 with
+  | .key => x.2.length = secKeyLength
+  | .version => x.2 = wsVersion
+  | _ => True
+
+/-- the effect of one accepted header line on the handshake state -/
+def applyHdr (h : Hs) (x : Bytes × Bytes) : Hs :=
+  match hdrKind x.1 with
+  | .key => { h with lines := h.lines + 1, secKey := x.2 ++ wsGuid }
+  | .protocol => { h with lines := h.lines + 1, protocolRequested := true,
+                          found := h.found || checkProtocol subProtocol x.2 }
+  | _ => { h with lines := h.lines + 1 }
+
+def hdrFold (h : Hs) (hdrs : List (Bytes × Bytes)) : Hs := hdrs.foldl applyHdr h
+
+/-- the callback sequence of a request: request line, one line per header, the empty line -/
+def hdrEvents (hdrs : List (Bytes × Bytes)) : List HsEvent :=
+  hdrs.flatMap (fun x => [HsEvent.line, HsEvent.field x.1, HsEvent.value x.2])
+
+def reqEvents (path : Bytes) (hdrs : List (Bytes × Bytes)) (method major minor : Nat) (upgrade : Bool) : List HsEvent :=
+  [HsEvent.line, HsEvent.url false (some path)] ++ hdrEvents hdrs ++ [HsEvent.line, HsEvent.headersComplete method major minor upgrade]
+
+/-- the state after the request line of a request for the configured target -/
+def hsAfterRequestLine : Hs := { lines := 1, created := true, createdLine := 1 }
+
+
 end Cjet.Ws
